@@ -171,6 +171,12 @@ def main():
     ts = [s.upper() for s in strings(tagq)]
     boolean("sqlTagSearchCaseInsensitive", any(" LIKE " in s for s in ts) and not any("GLOB" in s or "INSTR" in s for s in ts),
             "messages.rs find_message_epoch_by_tag_content uses LIKE (ASCII case-insensitive)")
+    # which match wins when several messages carry the tag: both backends pick the newest in display order
+    sql_newest = any(re.search(r"ORDER BY CREATED_AT DESC,\s*PROCESSED_AT DESC,\s*ID DESC\s+LIMIT 1", re.sub(r"\s+", " ", s)) for s in ts)
+    mem_tagq = fn_body(strip_comments(non_test(read("crates/mdk-memory-storage/src/messages.rs"))), "find_message_epoch_by_tag_content", "fn:find_message_epoch_by_tag_content(memory)")
+    mem_newest = "display_order_cmp" in mem_tagq and "return Ok(Some(epoch))" not in mem_tagq
+    boolean("tagSearchNewestWins", sql_newest and mem_newest,
+            "find_message_epoch_by_tag_content: SQLite ORDER BY created_at DESC, processed_at DESC, id DESC LIMIT 1; memory keeps the display_order_cmp maximum")
 
     # ORDER BY key lists of the two listings
     msgs_fn = fn_body(sql_groups, "messages", "fn:messages(sqlite)")
